@@ -52,7 +52,7 @@ def run(tier, seed):
         mc = conn.model_check(wd)
         mc2 = core.tlc("MC_CredSSP", wd=wd, workers=4, coverage=True, timeout=300)
         core.require_clean_mc(mc2, "MC_CredSSP", ("SendCredentials",))
-        _, cplans = conn.gen_plans(wd, 60 if tier == "quick" else 4000, [0], seed)
+        _, cplans = conn.gen_plans(wd, 60 if tier == "quick" else 12000, [0], seed)
         plans = list(conn.last_mode_plans) + cplans
         if len(conn.last_mode_plans) < 200:
             raise core.ToolError("Gen_Rdp produced only %d mode plans" % len(conn.last_mode_plans))
